@@ -103,11 +103,11 @@ class SetupCfgWriter(DependencyWriter):
             new_deps = [
                 f"{formatting}{dep.requirement}{eol}" for dep in dependencies_to_add
             ]
-            new_lines = (
-                original_lines[: last_dep_idx + 1]
-                + new_deps
-                + original_lines[last_dep_idx + 1 :]
-            )
+            preceding_lines = original_lines[: last_dep_idx + 1]
+            if not preceding_lines[-1].endswith("\n"):
+                # the last dependency ends a file without a final newline
+                preceding_lines[-1] += eol
+            new_lines = preceding_lines + new_deps + original_lines[last_dep_idx + 1 :]
         else:
             # new_deps added to existing deps line
             new_dep = ",".join(
